@@ -430,7 +430,19 @@ def rule_d(chk, f):
         if n.kind == 'stmt' and ('self' in pat.stores_attr(n.ast, '_pending_payload') or 'self' in pat.stores_attr(n.ast, '_pending_type')):
             q = pat.guarded_by(g, n, lambda e: data_T(e) or nonfinal(e))
             chk.ob('d', f.ref, 'the fragment state is written only for data frames / non-final frames, never in a control branch', q is None, loc(f, n.ast),
-                   path=pat.path_lines(q) if q else None, discr=f'pending-write:{src(n.ast.targets[0])}:{src(n.ast.value)[:12]}')
+                   path=pat.path_lines(q) if q else None,
+                   discr=f'pending-write:{src(n.ast.targets[0] if isinstance(n.ast, ast.Assign) else n.ast.target)}:{src(n.ast.value)[:12]}')
+    # what is delivered (and what a local names) must not be the reassembly buffer itself when that buffer is changed in place afterwards: the buffer is either
+    # replaced by fresh objects only, or never handed out
+    aliases = [n for n in g.nodes if n.kind == 'stmt' and isinstance(n.ast, ast.Assign) and src(n.ast.value) == 'self._pending_payload'
+               and src(n.ast.targets[0]) != 'self._pending_payload']
+    inplace = [n for n in g.nodes if n.kind == 'stmt' and (
+        (isinstance(n.ast, ast.AugAssign) and src(n.ast.target) == 'self._pending_payload') or
+        any(r == 'self._pending_payload' for m_ in ('clear', 'extend', 'append', 'pop', 'insert', 'remove', 'reverse') for r, _c in pat.method_calls(n.ast, m_)) or
+        (isinstance(n.ast, ast.Delete) and any('self._pending_payload[' in src(t) for t in n.ast.targets)))]
+    chk.ob('d', f.ref, 'the reassembly buffer is not changed in place while a message may be that very object (a local bound to the buffer is what gets delivered: clearing '
+                       'or extending the buffer afterwards changes the delivered message)', not (aliases and inplace), loc(f, (inplace or aliases or [g.entry])[0].ast)
+           if (inplace or aliases) else loc(f, f.node), detail='; '.join(f'`{n.text[:50]}`' for n in aliases + inplace), discr='buffer-not-aliased')
     # a complete data message resets the fragment state and is delivered
     deliver = [n for n in g.nodes if n.kind == 'stmt' and any(r == 'msgs' for r, _c in pat.method_calls(n.ast, 'append'))]
     rs = [n for n in g.nodes if n.kind == 'stmt' and 'self' in pat.stores_attr(n.ast, '_pending_payload') and src(n.ast.value) in ('bytearray()', "b''")]
